@@ -27,6 +27,7 @@ const (
 	reasonV4Private    refusedReason = "v4_private"
 	reasonV4LinkLocal  refusedReason = "v4_link_local_or_metadata"
 	reasonV4CGNAT      refusedReason = "v4_cgnat"
+	reasonV4Special    refusedReason = "v4_special_purpose"
 	reasonV6Loopback   refusedReason = "v6_loopback_or_unspecified"
 	reasonV6LinkLocal  refusedReason = "v6_link_local"
 	reasonV6SiteLocal  refusedReason = "v6_site_local"
@@ -64,6 +65,12 @@ var refusedV4 = []struct {
 	{mustCIDR("192.168.0.0/16"), reasonV4Private},
 	{mustCIDR("169.254.0.0/16"), reasonV4LinkLocal}, // includes 169.254.169.254 (metadata)
 	{mustCIDR("100.64.0.0/10"), reasonV4CGNAT},
+	// IANA special-purpose blocks that are not globally reachable either:
+	// 192.0.0.0/24 (RFC 6890 IETF protocol assignments) carries the Oracle Cloud
+	// instance-metadata endpoint 192.0.0.192 and the NAT64 discovery addresses;
+	// 198.18.0.0/15 (RFC 2544) is private-use benchmarking/overlay space.
+	{mustCIDR("192.0.0.0/24"), reasonV4Special},
+	{mustCIDR("198.18.0.0/15"), reasonV4Special},
 }
 
 // refusedV6 is the fixed IPv6 floor for genuinely-v6 addresses (loopback,
